@@ -23,6 +23,18 @@ CHECKS = {
  "C14": dict(cat="exploration", tech="differential property testing: in-memory run vs output_folder run read back with independent CSV/Parquet readers (corpus + Hypothesis tables with quoting/null edge values)",
    text="Same run in memory and with output_folder (csv/parquet x return_only_persistent): file set, headers, rows as keyed sets, _scalars.csv and absence of in-memory data are compared.",
    note="CSV read with an own RFC 4180 parser (keeps null vs empty string), Parquet with pyarrow; numeric tolerance 1e-9 relative.", ref="§3 C14"),
+ "C01": dict(cat="exploration", tech="differential property testing against an independent reference interpreter (refvtl) over Hypothesis-generated typed scripts and data",
+   text="Generated dataset-level operator trees and component-level expressions (arithmetic, comparison, boolean, string, membership, conditional, numeric functions) over generated data with nulls and partial key overlap are run by the engine from text and evaluated as IR by refvtl; results compared as keyed sets, expected runtime errors must be VTL errors.",
+   note="refvtl is grounded in the property statement, docs and ReferenceManual examples; shapes those sources do not settle are not generated (round ties, mod with negatives/zero, overlapping case conditions, out-of-domain ln/sqrt/log). Known finding C01-rename-nested is excluded by construction and reported by a probe.", ref="§3 C01"),
+ "C02": dict(cat="exploration", tech="differential property testing against refvtl over Hypothesis-generated clause chains",
+   text="Clause chains of length 1-4 (filter/calc/keep/drop/rename/sub) over mixed-type generated datasets are compared with refvtl as keyed sets (keys kept, components added/overwritten/renamed/removed, values).",
+   note="Chains start from input datasets (clauses over join results are exercised in C04); same reference and exclusions as C01.", ref="§3 C02"),
+ "C33": dict(cat="exploration", tech="metamorphic property testing: row permutations and column reorderings of every input in CSV / DataFrame / Parquet form (Hypothesis tables + corpus)",
+   text="For generated order-sensitive scripts (set operators, aggregations, analytics with total orders, joins, viral folds with an associative-commutative rule) and corpus cases, all permutations of small inputs (<=3 rows quick, <=6 thorough) or sampled permutations plus column shuffles must give the same keyed result set as the identity arrangement in the same input form.",
+   note="Corpus scripts with analytic windows are skipped (possible ties); inputs up to a few hundred rows only (large-input order dependence is C15's subject).", ref="§3 C33"),
+ "C22": dict(cat="exploration", tech="property testing with a snapshot invariant: deep snapshot of all arguments before/after generated API calls (valid and invalid inputs)",
+   text="Generated calls to run, run_sdmx, semantic_analysis, validate_dataset, prettify and generate_sdmx with DataFrames of many shapes (BOM/extra/missing columns, dtypes, indexes), dict/list structures (both key spellings), value domains, routines and scalar values; arguments must be unchanged after the call whether it returns or raises.",
+   note="Snapshots compare columns, dtypes, index and repr of every cell; URL datapoints (network) are not reachable in the sandbox.", ref="§3 C22"),
 }
 NOT_YET = "check not built yet in this session (work in progress, see DESIGN.md §5)"
 
